@@ -115,6 +115,9 @@ _sha1_ctx_mgr_submit_base(ISAL_SHA1_HASH_CTX_MGR *mgr, ISAL_SHA1_HASH_CTX *ctx, 
                 return ctx;
         }
 
+        // If we made it here, there were no errors during this call to submit
+        ctx->error = ISAL_HASH_CTX_ERROR_NONE;
+
         if (flags == ISAL_HASH_FIRST) {
 
                 sha1_init(ctx, buffer, len);
